@@ -63,7 +63,10 @@ def _tree(e, names):
 
 
 def run(facts, chk, tier, only=None):
-    from ..facts import fn_with_helpers
+    from ..facts import fn_with_helpers, fn_with_private_helpers
+    # the Cov arm of main: read files in order, k, rc = !single_strand, width; fitted before the table is printed
+    from . import cli_more
+    chk.guard('C20.cli', 'C20.cli:run0', lambda: cli_more.check_cov_arm(facts, chk, 'C20.cli', tier))
     # helpers wrapping the counting statement are inlined, so `entry(kmer).and_modify(+1).or_insert(1)` may live in a private method
     new = fn_with_helpers(facts, CH + '::new', lambda c: (c.name or '').endswith('HashMap::entry'))
 
@@ -140,7 +143,7 @@ def run(facts, chk, tier, only=None):
     # ---------------------------------------------------------------- index conventions
     def index():
         res = []
-        fh = facts.fn(CH + '::fit_histogram')
+        fh = fn_with_private_helpers(facts, CH + '::fit_histogram', keep=(CV + 'find_cutoff',))      # private single-caller helpers (histogram / truncation / fit split out) are spliced in
         eb = ExprBuilder(fh, through_vars=False)
         ebt = ExprBuilder(fh)
         mc = facts.const_int('coverage::MAX_COUNT')
@@ -168,7 +171,7 @@ def run(facts, chk, tier, only=None):
     # (k-mer multiplicity maps) and the resulting `counts` table compared with the specified one:
     #   counts[i] = #k-mers of multiplicity i+1 (multiplicities > MAX_COUNT dropped), cut after the last row >= MIN_FREQ.
     def hist():
-        fh = facts.fn(CH + '::fit_histogram')
+        fh = fn_with_private_helpers(facts, CH + '::fit_histogram', keep=(CV + 'find_cutoff',))      # private single-caller helpers (histogram / truncation / fit split out) are spliced in
         mf = 50                       # the property: "up to the last multiplicity shared by at least 50 split k-mers"
         mc = facts.const_int('coverage::MAX_COUNT')
         stop = [b.idx for b in fh.blocks if b.idx in fh.live_blocks() and
